@@ -726,6 +726,11 @@ async fn op_fwrite<P: HasEnds>(env: &Rc<Env>, i: usize, how: &How) {
             if delivered || v.vid() != vid {
                 fail("future-write-outcome", format!("future {i}: write of {vid} reported cancelled with value {} but the host has {sent:?}", v.vid()));
             }
+            // nothing runs between the cancellation and this point: a reader that is gone now
+            // was gone when the host answered, and the host answers DROPPED then
+            if r_dropped {
+                fail("future-write-outcome", format!("future {i}: the reader was dropped while the write of {vid} was in flight, so the host answered the cancellation with DROPPED, but the runtime reported Cancelled (and handed the writer back)"));
+            }
             P::ends(env).borrow_mut().fw[i] = Some(w);
         }
         Out::Dropped => {
